@@ -2631,6 +2631,15 @@ where
             step(*old(args), *final(args)), // #step
 //@@ end
 
+//@@ fn src/params.rs | impl ParsePositional | fn meta
+//@@ unit params.ParsePositional.meta tags=C12,C09
+//@@ ret m
+//@@ spec
+        ensures
+            shown_item(m) matches Some(i) && i is Positional && i->Positional_metavar == Metavar(self.metavar) && i->Positional_help == self.help, // #shown_with_its_metavariable_and_help
+            (m is Strict) == (self.position is Strict), // #strict_positional_is_shown_behind_the_separator
+//@@ end
+
 //@@ fn src/params.rs | impl Parser for ParsePositional | fn eval
 //@@ unit params.ParsePositional.eval tags=C09,C06,C02
 //@@ members
@@ -2646,7 +2655,12 @@ where
             },
         }
     }
-//@@ also fn meta external_body
+//@@ also fn meta
+//@@ ret m
+//@@ spec
+        ensures
+            shown_item(m) matches Some(i) && i is Positional && i->Positional_metavar == Metavar(self.metavar), // #shown_with_its_metavariable
+            (m is Strict) == (self.position is Strict),
 //@@ end
 
 //@@ fn src/params.rs | impl ParseArgument | fn item
